@@ -7,7 +7,7 @@
 //!     the same for every feed partition, session history, store and interleaving (C03).
 //! The size limits are lowered through the environment (the constants are read once per process), so the program re-executes itself
 //! once per configuration: (A) 64 KiB chunks, 1 MB xorbs, 3 MiB ingestion blocks; (B) 4 KiB chunks, 40-chunk xorbs, 50,000-byte
-//! ingestion blocks; (C) 4 KiB chunks, 150,000-byte xorbs, 1 MiB ingestion blocks.
+//! ingestion blocks; (C) 4 KiB chunks, 150,000-byte xorbs, 1 MiB ingestion blocks; (D) 64 KiB chunks, 100,000-byte ingestion blocks.
 //! Files are composed from whole chunks of random data (chunks re-chunk identically wherever they are placed), which allows exact
 //! dedup structures: empty / one byte / sub-chunk, multi-xorb fresh data, a repeat of chunks of the xorb that was just cut and of
 //! chunks pending in the open xorb (runs not starting at chunk 0), files sharing content and identical files in one session,
@@ -27,10 +27,12 @@ use rand::rngs::StdRng;
 use rand::{Rng, SeedableRng};
 use xet_threadpool::ThreadPool;
 
-const CONFIGS: [(&str, &[(&str, &str)]); 3] = [
+const CONFIGS: [(&str, &[(&str, &str)]); 4] = [
     ("A: 64 KiB chunks, xorb limit 1,000,000 bytes, ingestion block 3 MiB", &[("HF_XET_MAX_XORB_BYTES", "1000000"), ("HF_XET_INGESTION_BLOCK_SIZE", "3145728")]),
     ("B: 4 KiB chunks, xorb limit 40 chunks, ingestion block 50,000 bytes", &[("HF_XET_TARGET_CHUNK_SIZE", "4096"), ("HF_XET_MAX_XORB_CHUNKS", "40"), ("HF_XET_INGESTION_BLOCK_SIZE", "50000")]),
     ("C: 4 KiB chunks, xorb limit 150,000 bytes, ingestion block 1 MiB", &[("HF_XET_TARGET_CHUNK_SIZE", "4096"), ("HF_XET_MAX_XORB_BYTES", "150000"), ("HF_XET_INGESTION_BLOCK_SIZE", "1048576")]),
+    // an ingestion block SMALLER than the largest chunk (64 KiB target -> 128 KiB maximum chunk)
+    ("D: 64 KiB chunks, ingestion block 100,000 bytes (smaller than the largest chunk), xorb limit 2,000,000 bytes", &[("HF_XET_MAX_XORB_BYTES", "2000000"), ("HF_XET_INGESTION_BLOCK_SIZE", "100000")]),
 ];
 
 // ---------------------------------------------------------------------------------------------------------------------------------
